@@ -3,6 +3,7 @@ package props
 import (
 	"fmt"
 	"strings"
+	"text/template"
 
 	"github.com/CloudyKit/jet/v6"
 	"verifh/internal/fw"
@@ -24,7 +25,11 @@ type progSpec struct {
 	// directed returns extra non-model cases for low indexes (nil when idx is a model case).
 	directed  func(c *fw.Ctx, idx int) bool
 	nDirected int
+	// escaped: run this case under the default HTML escaper (model: escaper applied to every value, never to text)
+	escaped func(idx int) bool
 }
+
+var progHTMLWriters = map[string]func(string) string{"raw": func(s string) string { return s }, "unsafe": func(s string) string { return s }, "safeHtml": template.HTMLEscapeString}
 
 func progSources(p *prog.Program) map[string]string { return p.Sources(p.Newline) }
 
@@ -39,12 +44,19 @@ func runProgCase(c *fw.Ctx, idx int, sp *progSpec) {
 	desc := map[string]interface{}{"files": progSources(p), "main": p.Main, "vars": renderVars(p.Vars), "globals": renderVars(p.Globals), "data": p.Data.Render(), "has_data": p.HasData}
 	c.Begin(idx, desc)
 	defer c.End()
+	escaped := sp.escaped != nil && sp.escaped(idx)
 	m := prog.Eval(p)
+	opts := []jet.Option{jx.NoEscape}
+	if escaped {
+		m = prog.EvalWith(p, template.HTMLEscapeString, progHTMLWriters)
+		opts = nil
+		c.Count("programs_under_the_default_escaper", 1)
+	}
 	if m.Unspecified != "" {
 		c.Count("discarded_unspecified:"+m.Unspecified, 1)
 		return
 	}
-	o := p.Run(prog.RunOpts{Opts: []jet.Option{jx.NoEscape}, ExtraVars: sp.extra})
+	o := p.Run(prog.RunOpts{Opts: opts, ExtraVars: sp.extra})
 	c.Count("programs", 1)
 	fm := map[string]bool{}
 	for _, f := range feats {
@@ -65,7 +77,7 @@ func runProgCase(c *fw.Ctx, idx int, sp *progSpec) {
 			return
 		}
 	}
-	if sharedSetEntries(c, r, p, sp.extra, strings.ToLower(sp.id)) {
+	if !escaped && sharedSetEntries(c, r, p, sp.extra, strings.ToLower(sp.id)) {
 		return
 	}
 	if sp.post != nil {
@@ -246,7 +258,8 @@ var c13 = &progSpec{
 		return prog.Cfg{Items: 3, MaxDepth: 4, Ifs: true, Ranges: true, Vars: true, Blocks: idx%3 != 0, Includes: idx%4 == 0, MultiFile: idx%6 == 0, Try: true, Fails: true, Ctx: true, CondKinds: true, RangeErrs: true, SharedNames: idx%2 == 0, StateProbes: idx%2 == 1, IssetSwallow: true, IncludeIfExists: idx%2 == 0,
 			Values: c13values, Writers: []string{"raw", "unsafe"}}
 	},
-	extra: map[string]interface{}{"wval1": "«w1<&>»", "wval2": "«w2»"},
+	extra:   map[string]interface{}{"wval1": "«w1<&>»", "wval2": "«w2»"},
+	escaped: func(idx int) bool { return idx%2 == 0 },
 	nontriv: func(f map[string]bool, _ *prog.Program) bool {
 		return f["try"] && f["fail"] && (f["range"] || f["yield"] || f["if-let"] || f["include"])
 	},
